@@ -206,7 +206,7 @@ def _depth(s):
     return d
 
 
-_cov = re.compile(r"^<(\w+) line (\d+), col \d+ to line \d+, col \d+ of module (\w+)>: (\d+):(\d+)")
+_cov = re.compile(r"^<(\w+) line (\d+), col \d+ to line \d+, col \d+ of module (\w+)(?: \([\d ]+\))?>: (\d+):(\d+)")
 
 
 def run(module, cfg=None, scratch=None, workers=16, timeout=900, env=None, deadlock_check=False,
